@@ -49,3 +49,36 @@ pub use zlink_macros::ReplyError;
 
 #[doc(hidden)]
 pub mod test_utils;
+
+/// Verification hooks (only with `--cfg zlink_verif`; see /verif/MANIFEST.json).
+#[cfg(zlink_verif)]
+#[doc(hidden)]
+pub mod verif {
+    /// Outcome of [`json_to_slice`] when it does not succeed.
+    #[derive(Debug, Clone, Copy, PartialEq, Eq)]
+    pub enum JsonToSliceError {
+        /// The buffer was too small.
+        BufferTooSmall,
+        /// Any other serialization error.
+        Other,
+    }
+
+    /// Forwards to the private slice serializer.
+    pub fn json_to_slice<T>(value: &T, buf: &mut [u8]) -> Result<usize, JsonToSliceError>
+    where
+        T: ?Sized + serde::Serialize,
+    {
+        crate::json_ser::to_slice(value, buf).map_err(|e| match e {
+            crate::json_ser::Error::BufferTooSmall => JsonToSliceError::BufferTooSmall,
+            _ => JsonToSliceError::Other,
+        })
+    }
+
+    /// The buffer size limit and growth step in effect.
+    pub fn buffer_limits() -> (usize, usize) {
+        (
+            crate::connection::verif_max_buffer_size(),
+            crate::connection::BUFFER_SIZE,
+        )
+    }
+}
